@@ -303,6 +303,20 @@ def inline_self_calls(cls_lookup, self_name, e: ast.AST, depth: int = 2) -> ast.
     return Inl(depth).visit(_copy.deepcopy(e))
 
 
+def _closed_over_params(h) -> bool:
+    """the helper's body mentions no name other than its parameters, its own locals and builtins (so that its text means
+    the same in any module of the package)"""
+    import builtins as _b
+    local = set(h.params)
+    for n in ast.walk(h.node):
+        if isinstance(n, ast.Name) and isinstance(n.ctx, ast.Store):
+            local.add(n.id)
+    for n in ast.walk(h.node):
+        if isinstance(n, ast.Name) and isinstance(n.ctx, ast.Load) and n.id not in local and not hasattr(_b, n.id):
+            return False
+    return True
+
+
 def inline_module_calls(fi, e: ast.AST, depth: int = 2) -> ast.AST:
     """copy of `e` in which calls  f(a1, ..., ak)  of single-return functions of fi's module are replaced by the function's
     return expression (straight-line locals expanded) with its parameters substituted"""
@@ -325,7 +339,8 @@ def inline_module_calls(fi, e: ast.AST, depth: int = 2) -> ast.AST:
             self.generic_visit(c)
             if self.d > 0 and isinstance(c.func, ast.Name) and not c.keywords and not any(isinstance(a, ast.Starred) for a in c.args):
                 b = fi.resolve(c.func.id)
-                if b is not None and b.kind == "func" and b.target.cls is None and b.target.module is fi.module \
+                if b is not None and b.kind == "func" and b.target.cls is None and (
+                        b.target.module is fi.module or _closed_over_params(b.target)) \
                         and len(b.target.params) == len(c.args) and b.target is not fi:
                     body = [s for s in b.target.node.body if not (isinstance(s, ast.Expr) and isinstance(s.value, ast.Constant))]
                     # straight-line helper:  x = e1; y = e2; return e3   (each local assigned once) reads as its return
@@ -340,3 +355,32 @@ def inline_module_calls(fi, e: ast.AST, depth: int = 2) -> ast.AST:
             return c
 
     return Inl(depth).visit(_copy.deepcopy(e))
+
+
+def exchanged(fn_node: ast.AST, e: ast.AST, a: str, b: str, params=()) -> str:
+    """text of `e` (single-definition locals expanded) with the names a and b exchanged -- two return expressions e1, e2
+    with  txt(expanded e1) == exchanged(e2)  evaluate the same formula with the operands swapped"""
+    x = expand_locals(fn_node, e, params)
+
+    class Sw(ast.NodeTransformer):
+        def visit_Name(self, n):
+            if n.id == a:
+                return ast.copy_location(ast.Name(id=b, ctx=n.ctx), n)
+            if n.id == b:
+                return ast.copy_location(ast.Name(id=a, ctx=n.ctx), n)
+            return n
+
+    return txt(Sw().visit(x))
+
+
+def identity_fast_path_returns(fn_node: ast.AST, a: str, b: str) -> set:
+    """ids of the `return True` statements that form the whole body of  `if a is b:` / `if b is a:`  in an __eq__: a fast
+    path for the reflexive case that cannot change the answer for two distinct objects"""
+    out = set()
+    for n in ast.walk(fn_node):
+        if isinstance(n, ast.If) and isinstance(n.test, ast.Compare) and len(n.test.ops) == 1 and isinstance(n.test.ops[0], ast.Is) \
+                and {txt(n.test.left), txt(n.test.comparators[0])} == {a, b} and len(n.body) == 1 and isinstance(n.body[0], ast.Return) \
+                and isinstance(n.body[0].value, ast.Constant) and n.body[0].value.value is True:
+            out.add(id(n.body[0]))
+            out.add(id(n.test))
+    return out
